@@ -576,7 +576,7 @@ def get_literal(value):
         return
     elif value is SQL_NULL:
         return value
-    elif "literal" in value:
+    elif isinstance(value, dict) and "literal" in value:
         return value["literal"]
 
 
